@@ -83,7 +83,15 @@ def replay(ck, prop, path):
     a = transcript_lines(ck, "dev", path)
     b = transcript_lines(ck, "release", path)
     if a == b:
-        print(f"OK property={prop} both builds produce the same transcript ({len(a)} lines)")
+        # identical transcripts: an undocumented panic in both builds is still a violation
+        for fl in ("dev", "release"):
+            binpath = ck.build(fl)
+            p = subprocess.run([binpath, "replay", path], stdout=subprocess.PIPE, stderr=subprocess.PIPE, text=True, env=ck.run_env(fl), errors="replace")
+            if "REPRODUCED" in p.stdout.replace("NOT-REPRODUCED", ""):
+                ck.log(f"{fl}: " + p.stdout.strip().splitlines()[-1][:300])
+                print(f"VIOLATION property={prop} replay={path}")
+                return 1
+        print(f"OK property={prop} both builds produce the same transcript ({len(a)} lines) and no undocumented panic")
         return 0
     for i in range(max(len(a), len(b))):
         la = a[i] if i < len(a) else "<end>"
